@@ -15,7 +15,7 @@ pub fn run() -> i32 {
     s.frames = 70;
     s.mp = 3;
     s.delay = 1;
-    s.link = Link { drop: 0.1, dup: 0.1, base_ms: 10, jitter_ms: 20, outages: vec![], faults: vec![] };
+    s.link = Link { drop: 0.1, dup: 0.1, base_ms: 10, jitter_ms: 20, outages: vec![], faults: vec![], stragglers: vec![] };
     s.specs.push(SpecCfg::new(0));
     s.desync = Some(2);
     let w = run_scn(&s, Oracles::all_basic());
